@@ -28,8 +28,11 @@ PROOF_TARGETS = ['props/PropC18.vo']
 HEADER = ('From Coq Require Import String List Bool ZArith.\nRequire Import GT.PyBase GT.BuilderSpec.\n'
           'Import ListNotations.\nOpen Scope string_scope.\nOpen Scope list_scope.\n')
 MODEL_HEADER = 'Require Import GT.BuilderModel.\n'
+# classes of the OPEN findings that have a Gallina predicate (BuilderSpec.kf_class).  Findings that were
+# repaired in /repo (D29 kf_pyobj_no_eq, D30 kf_placeholder_copy) have none any more: their entries in
+# known_findings.json are `fixed: ...` and are ignored here; their replays stay in corpus/C18.jsonl, so a
+# return of the defect is an unexplained violated clause (VIOLATION).
 KF_CTOR = {'kf_unhashable_key': 'KfUnhashableKey', 'kf_container_key_sort': 'KfContainerKeySort',
-           'kf_pyobj_no_eq': 'KfPyObjNoEq', 'kf_placeholder_copy': 'KfPlaceholderCopy',
            'kf_json_bytes': 'KfJsonBytes', 'kf_json_cycle': 'KfJsonCycle'}
 STRATEGY = {'auto': (True, True), 'match': (True, False), 'none': (False, False)}   # allow_key_edits, auto_match_keys
 ENTRY = {'json': 'EJson', 'basic': 'EBasic', 'pydiff': 'EPyObj'}
